@@ -18,6 +18,9 @@ import (
 const cssMinT = load.Mod + "/css.cssMinifier"
 
 func init() {
+	mutant(&Mutant{Name: "c09-static-numeric-field-joined", Property: "C09", File: "js/js.go",
+		Old: "item.Name.Literal.TokenType != js.StringToken && item.Name.Literal.TokenType != js.PrivateIdentifierToken {", New: "item.Name.Literal.TokenType == js.IdentifierToken {",
+		Rule: "R09.21", Construct: "name is separated from the keyword"})
 	register(&Property{
 		ID:    "C04",
 		Level: "other",
@@ -88,6 +91,13 @@ func init() {
 	mutant(&Mutant{Name: "c04-background-size-taken-for-position", Property: "C04", File: "css/css.go",
 		Old: "\t\t\t\t\tfor k := 0; k < 2 && i+1 < end && (values[i+1].TokenType == css.NumberToken || values[i+1].IsLengthPercentage() || values[i+1].Ident == Auto); k++ {\n\t\t\t\t\t\ti++\n\t\t\t\t\t}\n\t\t\t\t\tcontinue\n", New: "\t\t\t\t\tcontinue\n",
 		Rule: "R04.18", Construct: "steps over the size"})
+	mutant(&Mutant{Name: "c04-position-offsets-shared-between-layers", Property: "C04", File: "css/css.go",
+		Old: "\t\t\t\toffsets := make([]Token, 2)\n", New: "\t\t\t\toffsets = offsets[:2]\n",
+		Old2: "\tcase Background_Position:\n\t\tstart := 0\n", New2: "\tcase Background_Position:\n\t\tstart := 0\n\t\toffsets := make([]Token, 2)\n",
+		Rule: "R04.20", Construct: "offsets re-sliced inside a loop is cleared first"})
+	mutant(&Mutant{Name: "c04-integer-gets-an-exponent", Property: "C04", File: "css/css.go",
+		Old: "if c.o.KeepCSS2 || isInteger(values[i].Data) {", New: "if c.o.KeepCSS2 {",
+		Rule: "R04.21", Construct: "only for literals that are not integers"})
 	mutant(&Mutant{Name: "c04-custom-property-collapsed", Property: "C04", File: "css/css.go",
 		Old: "\t\t\tvalue := parse.TrimWhitespace(c.p.Values()[0].Data)\n", New: "\t\t\tvalue := parse.TrimWhitespace(parse.ReplaceMultipleWhitespace(c.p.Values()[0].Data))\n",
 		Rule: "R04.4", Construct: "confined to comment text"})
@@ -216,6 +226,9 @@ func runC04(c *Ctx) {
 	c.r0416(pk)
 	c.r0417(pk)
 	c.r0418(pk)
+	c.r0419(pk)
+	c.r0420("R04.20", []string{"css"})
+	c.r0421(pk)
 	// positions remembered while rewriting a value list (background layers) stay valid: same rule as R10.5, css only
 	c.alsoUnder(map[string]string{"R10.5": "R04.8"}, func(construct string) bool {
 		return strings.HasPrefix(construct, "css.") || strings.HasPrefix(construct, "floor/")
@@ -546,33 +559,41 @@ func runC09own(c *Ctx) {
 	}
 	c.r019(pk, "R09.3")
 	c.r094(pk)
+	c.r0921(pk)
 }
 
 // R09.4: `1.a` is not a member access — a property written after a number needs the integer test.
 func (c *Ctx) r094(pk *packages.Package) {
 	const rule = "R09.4"
-	c.R.Rule(rule, "in the DotExpr case of jsMinifier.minifyExpr every write of the property name (m.write(expr.Y.Data)) is reached only through the optional-chaining branch (`?.`) or through the test that inspects the last byte written (m.prev) for a digit — the test that adds the second dot after an integer (`5..a`). A path that writes a number and the property with its own dot logic bypasses it: `(1.0).toString()` → `1.toString()`, `(1n).a` → `1n..a`, both syntax errors")
+	c.R.Rule(rule, "in the DotExpr case of jsMinifier.minifyExpr every write of the property name (m.write(expr.Y.Data)), and in the IndexExpr case every write of a string key as an identifier name (the string's contents without its quotes), is reached only through the optional-chaining branch (`?.`) or through the test that inspects the bytes written last (m.prev) for digits — inline, or in a method of the printer whose body does — the test that adds the second dot after an integer (`5..a`). A path that writes a number and the property with its own dot logic bypasses it: `(1.0).toString()` → `1.toString()`, `(1n).a` → `1n..a`, `1[\"toString\"]()` → `1.toString()`, all syntax errors")
 	info := pk.TypesInfo
 	fd := c.fn(rule, pk, "jsMinifier.minifyExpr")
 	if fd == nil {
 		return
 	}
 	g := c.graph(pk, fd)
-	var caseTrue *flow.Node
-	for _, y := range g.Nodes {
-		if y.Kind == flow.KTrue && y.Of.Kind == flow.KTypeCase && str(y.Of.Expr) == "*js.DotExpr" {
-			caseTrue = y
-		}
-	}
-	if caseTrue == nil {
-		c.R.Unres(rule, "js.jsMinifier.minifyExpr/case *js.DotExpr", c.pos(fd), "case not found")
-		return
+	prevDigits := func(p *packages.Package, root *ast.BlockStmt) bool {
+		s := nospace(c.src(root))
+		return (strings.Contains(s, "'0'") || strings.Contains(s, "'9'")) && strings.Contains(s, ".prev")
 	}
 	digitTest := func(y *flow.Node) bool {
 		if y.Kind != flow.KCond {
 			return false
 		}
 		s := str(y.Expr)
+		// a method of the printer that looks at m.prev for digits
+		viaHelper := false
+		ast.Inspect(y.Expr, func(x ast.Node) bool {
+			if ce, ok := x.(*ast.CallExpr); ok {
+				if p, d := c.calleeDecl(info, ce); d != nil && d.Body != nil && d.Recv != nil && prevDigits(p, d.Body) {
+					viaHelper = true
+				}
+			}
+			return true
+		})
+		if viaHelper {
+			return true
+		}
 		if !strings.Contains(s, "'0'") && !strings.Contains(s, "'9'") {
 			return false
 		}
@@ -594,27 +615,41 @@ func (c *Ctx) r094(pk *packages.Package) {
 	optional := func(y *flow.Node) bool {
 		return y.Kind == flow.KTrue && y.Of.Kind == flow.KCond && nospace(str(y.Of.Expr)) == "expr.Optional"
 	}
-	n := 0
-	for _, y := range g.Nodes {
-		a := y.Ast()
-		if a == nil || y.Kind != flow.KStmt || c.caseLabel(a) != "case *js.DotExpr" {
+	for _, cs := range []struct{ label, what string }{{"*js.DotExpr", "property write"}, {"*js.IndexExpr", "string key written as a name"}} {
+		caseTrue := caseHead(g, cs.label)
+		if caseTrue == nil {
+			c.R.Unres(rule, "js.jsMinifier.minifyExpr/case "+cs.label, c.pos(fd), "case not found")
 			continue
 		}
-		writesProp := false
-		for _, call := range findCalls(info, a, false, jsWrite) {
-			if nospace(str(call.Args[0])) == "expr.Y.Data" {
-				writesProp = true
+		n := 0
+		for _, y := range g.Nodes {
+			a := y.Ast()
+			if a == nil || y.Kind != flow.KStmt || c.caseLabel(a) != "case "+cs.label {
+				continue
 			}
+			writesProp := false
+			for _, call := range findCalls(info, a, false, jsWrite) {
+				arg := nospace(str(call.Args[0]))
+				if cs.label == "*js.DotExpr" && arg == "expr.Y.Data" {
+					writesProp = true
+				}
+				if cs.label == "*js.IndexExpr" {
+					// a slice of the literal's data (the contents of the string)
+					if se, ok := ast.Unparen(call.Args[0]).(*ast.SliceExpr); ok && strings.HasSuffix(nospace(str(se.X)), ".Data") {
+						writesProp = true
+					}
+				}
+			}
+			if !writesProp {
+				continue
+			}
+			n++
+			p := g.Path(flow.Search{From: []*flow.Node{caseTrue}, Goal: func(z *flow.Node) bool { return z == y }, Avoid: func(z *flow.Node) bool { return digitTest(z) || optional(z) }})
+			c.R.Check(p == nil, rule, fmt.Sprintf("js.jsMinifier.minifyExpr/case %s/%s#%d behind the trailing-digit test", cs.label, cs.what, n), c.pos(a), "only after the m.prev digit test (or `?.`)",
+				"the property name can be written without the test that separates it from a preceding integer: a numeric literal followed by `.name` is printed with the wrong number of dots (`1.toString()` / `1n..a`), which is not valid JavaScript: "+pathStr(c, g, p))
 		}
-		if !writesProp {
-			continue
-		}
-		n++
-		p := g.Path(flow.Search{From: []*flow.Node{caseTrue}, Goal: func(z *flow.Node) bool { return z == y }, Avoid: func(z *flow.Node) bool { return digitTest(z) || optional(z) }})
-		c.R.Check(p == nil, rule, fmt.Sprintf("js.jsMinifier.minifyExpr/case *js.DotExpr/property write#%d behind the trailing-digit test", n), c.pos(a), "only after the m.prev digit test (or `?.`)",
-			"the property name can be written without the test that separates it from a preceding integer: a numeric literal followed by `.name` is printed with the wrong number of dots (`1.toString()` / `1n..a`), which is not valid JavaScript: "+pathStr(c, g, p))
+		c.R.Floor(rule, "property writes in the "+cs.label+" case", n, 1)
 	}
-	c.R.Floor(rule, "property writes in the DotExpr case", n, 1)
 }
 
 // R09.8: the quoting of a url() is decided on the bytes that are written.
@@ -1460,4 +1495,152 @@ func (c *Ctx) r0418(pk *packages.Package) {
 		return false
 	})
 	c.R.Floor(rule, "loops holding the background-position rewrite", n, 1)
+}
+
+// R04.19: the value of a custom property is written as it is, trimmed at most.
+func (c *Ctx) r0419(pk *packages.Package) {
+	const rule = "R04.19"
+	c.R.Rule(rule, "CSS Variables §2: the value of a custom property is a token sequence that scripts read back (`getPropertyValue`) and that is substituted anywhere — no rewriting is meaning-preserving in general, and white space inside its strings and url()s is data. In cssMinifier.minifyGrammar, case css.CustomPropertyGrammar, every assignment to the value that is written derives from the token's Data through parse.TrimWhitespace alone (or is the constant single space for an empty value); any other function applied to it — a white space collapser that tracks quotes but not escapes — cannot be judged here and is reported as undecided")
+	info := pk.TypesInfo
+	fd := c.fn(rule, pk, "cssMinifier.minifyGrammar")
+	if fd == nil {
+		return
+	}
+	var clause *ast.CaseClause
+	ast.Inspect(fd.Body, func(x ast.Node) bool {
+		if cc, ok := x.(*ast.CaseClause); ok && len(cc.List) == 1 && nospace(str(cc.List[0])) == "css.CustomPropertyGrammar" {
+			clause = cc
+		}
+		return true
+	})
+	if clause == nil {
+		c.R.Unres(rule, "css.cssMinifier.minifyGrammar/case css.CustomPropertyGrammar", c.pos(fd), "case not found")
+		return
+	}
+	n := 0
+	ast.Inspect(clause, func(x ast.Node) bool {
+		as, ok := x.(*ast.AssignStmt)
+		if !ok {
+			return true
+		}
+		for i, l := range as.Lhs {
+			if _, isId := l.(*ast.Ident); !isId || i >= len(as.Rhs) {
+				continue
+			}
+			rhs := as.Rhs[i]
+			if !isByteSlice(info.TypeOf(rhs)) {
+				continue
+			}
+			n++
+			var foreign []string
+			ast.Inspect(rhs, func(z ast.Node) bool {
+				ce, ok := z.(*ast.CallExpr)
+				if !ok {
+					return true
+				}
+				cn := calleeName(info, ce)
+				switch {
+				case cn == load.ParseMod+".TrimWhitespace", cn == "len", cn == "":
+				case strings.HasSuffix(cn, ".Values"), strings.HasSuffix(cn, ".(Parser).Values"):
+				default:
+					foreign = append(foreign, cn[strings.LastIndex(cn, ".")+1:])
+				}
+				return true
+			})
+			construct := fmt.Sprintf("css.cssMinifier.minifyGrammar/case css.CustomPropertyGrammar/value#%d is the token data, trimmed", n)
+			if len(foreign) == 0 {
+				c.R.OK(rule, construct, c.pos(as), "only parse.TrimWhitespace is applied")
+			} else {
+				c.R.Unres(rule, construct, c.pos(as), "the custom property value passes through "+strings.Join(foreign, ", ")+" before it is written: whether that leaves every string, url() and escape of the value intact cannot be decided by this rule (`--label:\"5\\\\\"  screen\"` — a collapser that takes `\\\\\"` for the end of the string rewrites the rest of it)")
+			}
+		}
+		return true
+	})
+	c.R.Floor(rule, "assignments of the custom property value", n, 1)
+}
+
+// R04.21: an integer literal is never given an exponent.
+func (c *Ctx) r0421(pk *packages.Package) {
+	const rule = "R04.21"
+	c.R.Rule(rule, "CSS Syntax §4.3.12 / CSS Values §5.1: a number token written with an exponent has the type flag `number` and is not an <integer> — `order:1e3`, `column-count:1e3`, `grid-row:1e3`, `repeat(1e3,1px)`, `steps(1e3)` are invalid and the declaration is dropped. The minifier does not know which positions require an <integer>, so a literal written as an integer keeps that form: in cssMinifier.minifyTokens, case css.NumberToken, every call of minify.Number (the rewriter that introduces exponents) on the token's data is reached only through the false outcome of a test of the same data by a digit predicate (a function of the module over []byte whose body compares with '0' and '9', or an inline search for '.'); a path that reaches it otherwise lets an integer through")
+	info := pk.TypesInfo
+	fd := c.fn(rule, pk, "cssMinifier.minifyTokens")
+	if fd == nil {
+		return
+	}
+	g := c.graph(pk, fd)
+	// digit predicates: functions of the package with one []byte parameter and a bool result that compare with '0' / '9'
+	isDigitPred := func(call *ast.CallExpr) bool {
+		f, _ := callee(info, call).(*types.Func)
+		if f == nil || f.Pkg() == nil || !strings.HasPrefix(f.Pkg().Path(), load.Mod) {
+			return false
+		}
+		sig := f.Type().(*types.Signature)
+		if sig.Results().Len() != 1 || !types.Identical(sig.Results().At(0).Type(), types.Typ[types.Bool]) {
+			return false
+		}
+		var decl *ast.FuncDecl
+		for _, p := range c.P.Roots {
+			if p.Types == f.Pkg() {
+				for _, d := range load.FuncDecls(p) {
+					if p.TypesInfo.Defs[d.Name] == f {
+						decl = d
+					}
+				}
+			}
+		}
+		if decl == nil || decl.Body == nil {
+			return false
+		}
+		s := nospace(c.src(decl.Body))
+		return strings.Contains(s, "'0'") && strings.Contains(s, "'9'")
+	}
+	n := 0
+	for _, y := range g.Nodes {
+		a := y.Ast()
+		if a == nil || y.Kind != flow.KStmt || c.caseLabel(a) != "case css.NumberToken" {
+			continue
+		}
+		for _, call := range findCalls(info, a, false, load.Mod+".Number") {
+			if len(call.Args) < 1 {
+				continue
+			}
+			n++
+			arg := nospace(str(call.Args[0]))
+			test := func(q *flow.Node) bool {
+				if q.Kind != flow.KFalse || q.Of == nil || q.Of.Kind != flow.KCond {
+					return false
+				}
+				hit := false
+				ast.Inspect(q.Of.Expr, func(z ast.Node) bool {
+					ce, ok := z.(*ast.CallExpr)
+					if !ok {
+						return true
+					}
+					for _, ca := range ce.Args {
+						if nospace(str(ca)) == arg && (isDigitPred(ce) || strings.Contains(str(q.Of.Expr), "'.'")) {
+							hit = true
+						}
+					}
+					return true
+				})
+				return hit
+			}
+			// from the head of the case to the call, not through "the digit predicate is false"
+			var heads []*flow.Node
+			for _, h := range g.Nodes {
+				if h.Kind == flow.KTrue && h.Of != nil && h.Of.Kind == flow.KCase && nospace(str(h.Of.Expr)) == "css.NumberToken" && g.Dominates(h, y) {
+					heads = append(heads, h)
+				}
+			}
+			if len(heads) == 0 {
+				c.R.Unres(rule, fmt.Sprintf("css.cssMinifier.minifyTokens/case css.NumberToken/minify.Number#%d", n), c.pos(call), "head of the case not found in the flow graph")
+				continue
+			}
+			p := g.Path(flow.Search{From: heads, Goal: func(q *flow.Node) bool { return q == y }, Avoid: test})
+			c.R.Check(p == nil, rule, fmt.Sprintf("css.cssMinifier.minifyTokens/case css.NumberToken/minify.Number#%d only for literals that are not integers", n), c.pos(call), "behind the false outcome of a digit predicate on "+arg,
+				"minify.Number is applied to a number token without a test that the literal is not an integer: `order:1000` becomes `order:1e3`, which is not an <integer> and invalidates the declaration: "+pathStr(c, g, p))
+		}
+	}
+	c.R.Floor(rule, "calls of minify.Number in the NumberToken case", n, 1)
 }
